@@ -52,6 +52,14 @@ func inclRun(w *World) {
 		}
 		ctx, cancel := context.WithCancel(context.Background())
 		sc := subCfg{Backpressure: t.Flag(1, 2), UpdatesOnly: t.Flag(1, 4), Include: tbl}
+		switch t.Choose(6) {
+		case 1:
+			sc.RMaskSet, sc.RMask = true, []string{fV}
+		case 2:
+			// a read mask that leaves out the field the predicate reads: inclusion is decided on the stored item,
+			// the mask only shapes what is delivered
+			sc.RMaskSet, sc.RMask = true, []string{fS, fN}
+		}
 		subs = append(subs, &inclSub{subscriber: &subscriber{name: fmt.Sprintf("s%d", i), cfg: sc, ctx: ctx, cancel: cancel}, tbl: tbl})
 	}
 	filtered := func(tbl *inclTable) map[string]mm {
@@ -60,6 +68,16 @@ func inclRun(w *World) {
 			if tbl.eval(id, false, v.V) {
 				out[id] = v
 			}
+		}
+		return out
+	}
+	projFor := func(s *inclSub) func(mm) mm {
+		return func(x mm) mm { return x.project(s.cfg.RMask, !s.cfg.RMaskSet) }
+	}
+	projView := func(s *inclSub, v map[string]mm) map[string]mm {
+		out := map[string]mm{}
+		for id, x := range v {
+			out[id] = projFor(s)(x)
 		}
 		return out
 	}
@@ -75,7 +93,7 @@ func inclRun(w *World) {
 				continue
 			}
 			s := s
-			s.view = filtered(s.tbl)
+			s.view = projView(s, filtered(s.tbl))
 			if !s.cfg.UpdatesOnly {
 				sids := []string{}
 				for _, id := range m.sortedIDs() {
@@ -84,7 +102,7 @@ func inclRun(w *World) {
 					}
 				}
 				for k, id := range sids {
-					s.expect = append(s.expect, inclExp{sev: sev{ID: id, Type: types.ChangeType_ADD, HasNew: true, New: m.items[id], Seed: true, LastSeed: k == len(sids)-1}})
+					s.expect = append(s.expect, inclExp{sev: sev{ID: id, Type: types.ChangeType_ADD, HasNew: true, New: projFor(s)(m.items[id]), Seed: true, LastSeed: k == len(sids)-1}})
 				}
 			}
 			// opened between phases: never concurrently with a write (the statement's histories are single-writer)
@@ -145,6 +163,7 @@ func inclRun(w *World) {
 				ni := s.tbl.eval(id, !has, after.V)
 				e := inclExp{}
 				e.ID = id
+				before, after := projFor(s)(before), projFor(s)(after)
 				e.Loose = (!had && s.tbl.eval(id, true, 0)) || (!has && s.tbl.eval(id, true, 0))
 				switch {
 				case oi && ni:
@@ -174,12 +193,13 @@ func inclRun(w *World) {
 			if !s.opened {
 				continue
 			}
-			want := filtered(s.tbl)
+			full := filtered(s.tbl)
+			want := projView(s, full)
 			// List with the same predicate
 			lr := r.apply(wop{Kind: opList, Include: s.tbl})
 			var wl []mm
 			for _, id := range m.sortedIDs() {
-				if v, in := want[id]; in {
+				if v, in := full[id]; in {
 					wl = append(wl, v)
 				}
 			}
